@@ -19,6 +19,7 @@ static void vexit(int code);
 char* getmessage(int n) { static char e[1]; (void)n; return e; }
 char* catgetmessage(PMsgCat c, int n) { static char e[1]; (void)c; (void)n; return e; }
 char* GetErrorMsg(int n) { static char e[1]; (void)n; return e; }
+long FileSize(FILE* f) { return VF(f)->size; }
 
 #ifndef NB
 #define NB 12
